@@ -52,6 +52,9 @@ func (vc *VC) reset() {
 	vc.isErrTargets = map[string]bool{}
 	vc.boxes = map[Term]boxInfo{}
 	vc.stableCache = map[*ssa.Global]Term{}
+	vc.elemInfo = map[Term]elemInfo{}
+	vc.slicePtr = map[Term]Term{}
+	vc.prov = map[Term]Term{}
 }
 
 // wf records well-formedness facts of a value of type t existing at state st.
@@ -112,7 +115,7 @@ func (vc *VC) generateOnce() {
 			if loc.Op == "id" || (loc.Op == "index" && loc.X.Op == "id" && vc.C.Ghosts[loc.X.Name] != nil) {
 				continue // ghost
 			}
-			if loc.Op == "call" && (loc.Name == "os") {
+			if loc.Op == "call" && (loc.Name == "os" || loc.Name == "target") {
 				continue
 			}
 			if loc.Op == "unary" && loc.Name == "*" {
@@ -123,7 +126,7 @@ func (vc *VC) generateOnce() {
 			if loc.Op == "call" && (loc.Name == "elems" || loc.Name == "deep") && len(loc.Args) == 1 {
 				v := env.eval(loc.Args[0])
 				if v.ct.Sort == "Slice" {
-					vc.frameRoots = append(vc.frameRoots, sx("s-base", v.t))
+					vc.frameRoots = append(vc.frameRoots, vc.sptr(v.t))
 				} else {
 					vc.frameRoots = append(vc.frameRoots, v.t)
 				}
@@ -143,6 +146,9 @@ func (vc *VC) generateOnce() {
 		}
 		vc.bindResults(penv, fn.Signature, res)
 		for _, cl := range ct.Ensures {
+			if cl.Defines {
+				continue
+			}
 			g := penv.boolTerm(cl.Expr)
 			ob := &Oblig{Name: vc.rootKey + "/post:" + cl.Label, Kind: "post", Label: cl.Label, Func: vc.rootKey, InFunc: vc.rootKey, Detail: cl.Src}
 			vc.sc.Oblig(out.reach, g, ob)
